@@ -1101,10 +1101,10 @@ class CZ(BaseGate):
 
         self.sites = sites_list
         self.tensor: NDArray[np.complex128] = np.reshape(self.matrix, (2, 2, 2, 2))
-        # Generator: π/4 * ((I - Z) ⊗ (I - X))
+        # Generator: π/4 * ((I - Z) ⊗ (I - Z))
         self.generator = [
             (np.pi / 4) * np.array([[0, 0], [0, 2]], dtype=np.complex128),
-            np.array([[1, -1], [-1, 1]], dtype=np.complex128),
+            np.array([[0, 0], [0, 2]], dtype=np.complex128),
         ]
         self.mpo_tensors = extend_gate(self.tensor, self.sites)
         if self.sites[1] < self.sites[0]:  # Adjust for reverse control/target
